@@ -72,6 +72,9 @@ def c13_session(binary, plan, positions, delays=None):
     results = []
     try:
         ask(e, "uci", lambda x: x == "uciok", 30)
+        debug_session = zlib.crc32(f"debug/{plan[0][0]}/{plan[0][1]}".encode()) % 3 == 0
+        if debug_session:
+            e.send("debug on")  # a GUI's debug mode must not make option changes less survivable
         searched = False
         for (name, value, pos, go) in plan:
             r = {"option": name, "value": value, "between_searches": searched, "verdict": "held"}
@@ -128,9 +131,11 @@ def c13_session(binary, plan, positions, delays=None):
                 results.append(r)
                 break  # violated or inconclusive: never reuse an engine whose answer went missing (a late answer would be
                 # attributed to the next question)
-            if zlib.crc32(f"again/{name}/{value}".encode()) % 4 == 0:
+            if debug_session or zlib.crc32(f"again/{name}/{value}".encode()) % 4 == 0:
                 # a GUI re-sends its whole option list: the same value once more, then the engine must still be there
+                # (sent after a pause, so that it is not refused for arriving in the bestmove window)
                 r["sent_again"] = True
+                time.sleep(0.08)
                 e.send(f"setoption name {name} value {value}")
                 if not settle(e, 60.0):
                     v, sig, text = crash_or_hang(e, f"isready after setoption name {name} value {value} sent a second time")
@@ -299,6 +304,22 @@ def c17_batch(binary, games, conv_alive, conv_lock, delays=None):
             cmd = position_cmd(g["root"], g["moves"])
             e.send(cmd)
             prev_has_replies = bool(g["replies"])
+            # what may come between the position command and the moment the position is used: none of it may change it
+            for post in g.get("post", []):
+                if post == "go":
+                    if not g["replies"]:
+                        continue
+                    ok = ask(e, "go depth 1", lambda x: x.startswith("bestmove"), 60.0) is not None
+                else:
+                    e.send(post)
+                    ok = settle(e, 60.0)
+                if not ok:
+                    v, sig, text = crash_or_hang(e, f"'{post}' after a position command")
+                    r.update({"verdict": v, "signature": f"c17.{sig}", "what": text})
+                    break
+            if r["verdict"] != "held":
+                res.append(r)
+                break
             out_fen = exchange(e, "d fen")
             fen_lines = [x for x in (out_fen or []) if x.startswith("FEN: ")]
             if out_fen is None or len(fen_lines) != 1:
@@ -429,9 +450,22 @@ def c17_stage(out, tier, seed):
             pre.extend(["go", "ucinewgame"])
         elif r < 0.65:
             pre.append("isready")
+        post = []
+        r2 = srng.random()
+        if r2 < 0.12:
+            post.append(f"setoption name Hash value {srng.choice([1, 2, 8, 32, 64])}")
+        elif r2 < 0.20:
+            post.append(f"setoption name Move Overhead value {srng.choice([0, 10, 100])}")
+        elif r2 < 0.28:
+            post.append(srng.choice(["debug on", "debug off"]))
+        elif r2 < 0.36:
+            post.append("go")
+        elif r2 < 0.40:
+            post.append("stop")
         by_sid.setdefault(f[1], []).append({"root": f[2], "moves": f[3], "fens": [f[4], f[5], f[6]], "replies": f[7].split(),
-                                            "features": ["session_step"] + (["session_step_after_ucinewgame"] if "ucinewgame" in pre else []),
-                                            "pre": pre})
+                                            "features": ["session_step"] + (["session_step_after_ucinewgame"] if "ucinewgame" in pre else [])
+                                            + (["command_between_position_and_dump"] if post else []),
+                                            "pre": pre, "post": post})
     for i, (sid, steps) in enumerate(sorted(by_sid.items())):
         batches.append((bins[i % len(bins)], steps))
     with ThreadPoolExecutor(max_workers=14) as ex:
@@ -688,6 +722,53 @@ def c14_stage(out, tier, seed):
         elif r["verdict"] == "inconclusive":
             out.add_inconclusive({"stage": "timed-release", "what": r["what"]})
 
+    # a short clock right after a long search in the same process: nothing the long search left behind (node counters,
+    # poll schedules) may delay the moment the short one looks at its clock
+    def after_long_search_session(long_cmd):
+        e = Engine(binary)
+        try:
+            e.send("setoption name Hash value 16")
+            if not settle(e, 60.0):
+                return {"verdict": "inconclusive", "what": "engine not ready"}
+            for k in range(4):
+                pos = roomy_positions[k % len(roomy_positions)]
+                e.send(position_cmd(pos["root"], pos["moves"]))
+                if k == 0:
+                    if ask(e, long_cmd, lambda x: x.startswith("bestmove"), 120.0) is None:
+                        v, sig, text = crash_or_hang(e, long_cmd)
+                        return {"verdict": v, "signature": f"c14.{sig}", "what": text}
+                clock = (400, 1000, 600, 1600)[k]
+                go = f"go wtime {clock} btime {clock} movestogo 1"
+                cpu0, n = e.cpu_ns(), e.n_out()
+                e.send(go)
+                got = e.wait_line(lambda x: x.startswith("bestmove"), n, 60.0)
+                cpu1 = e.cpu_ns()
+                if got is None:
+                    v, sig, text = crash_or_hang(e, f"{go} after {long_cmd}")
+                    if v == "inconclusive" and cpu0 is not None and cpu1 is not None and (cpu1 - cpu0) / 1e6 > clock:
+                        v, sig, text = "violated", "flagged.after-long-search", f"'{go}' after '{long_cmd}' in the same process: no move after {(cpu1 - cpu0) / 1e6:.0f} ms of the engine's own CPU time"
+                    return {"verdict": v, "signature": f"c14.{sig}", "what": text}
+                if cpu0 is not None and cpu1 is not None and (cpu1 - cpu0) / 1e6 > clock:
+                    return {"verdict": "violated", "signature": "c14.flagged.after-long-search",
+                            "what": f"'{go}' right after '{long_cmd}' in the same process consumed {(cpu1 - cpu0) / 1e6:.0f} ms of the engine's own CPU time"}
+                # with one move to go the hard limit is half the clock; a search that goes on thinking 150 ms of its own
+                # CPU time beyond that is not enforcing it (the release binary polls every 10 000 nodes, i.e. every 3 ms)
+                if cpu0 is not None and cpu1 is not None and (cpu1 - cpu0) / 1e6 > clock / 2 + 150:
+                    return {"verdict": "violated", "signature": "c14.hard-limit-not-enforced.after-long-search",
+                            "what": f"'{go}' right after '{long_cmd}' in the same process: the hard limit is at most {clock // 2} ms, the search consumed {(cpu1 - cpu0) / 1e6:.0f} ms of the engine's own CPU time"}
+            return {"verdict": "held"}
+        finally:
+            e.close()
+
+    for long_cmd in (["go movetime 3000", "go depth 14", "go movetime 8000"] if thorough else ["go movetime 2500", "go depth 12"]):
+        r = after_long_search_session(long_cmd)
+        out.evaluations += 1
+        out.features["timed_searches_right_after_a_long_search"] = out.features.get("timed_searches_right_after_a_long_search", 0) + 1
+        if r["verdict"] == "violated":
+            out.add_violation("timed-release", r["signature"], r["what"], {"kind": "py", "check": "c14-afterlong", "long": long_cmd})
+        elif r["verdict"] == "inconclusive":
+            out.add_inconclusive({"stage": "timed-release", "what": r["what"]})
+
     # The clock runs from 'go', not from whenever the search thread gets going. The search thread is held up (hook H3,
     # before it takes the tables - as a busy machine or a still-locked table would hold it up) for LONGER than the whole
     # clock; when it wakes up every limit has passed, so it may finish the iteration it must make and nothing more. Judged
@@ -777,7 +858,11 @@ def c04_session(binary, plan, wait=60.0):
             if "infinite" in go:
                 time.sleep(0.05)
                 e.send("stop")
-            got = e.wait_line(lambda x: x.startswith("bestmove"), n, wait)
+            got, t_end = None, now() + wait
+            while got is None and now() < t_end:
+                got = e.wait_line(lambda x: x.startswith("bestmove"), n, min(5.0, max(0.1, t_end - now())))
+                if got is None and (e.saw_panic() or not e.alive()):
+                    break  # a panic message is out: the answer will not come, no need to sit out a long wait
             with e.cv:
                 sd = [int(x.split()[4]) for _, x in e.out_lines[n:] if x.startswith("info depth") and len(x.split()) > 4 and x.split()[3] == "seldepth" and x.split()[4].isdigit()]
             r["max_seldepth"] = max(sd or [0])
@@ -1429,8 +1514,38 @@ def c12_stage(out, tier, seed):
                                   f"after {len(hist)} searches and ucinewgame, 'go depth {depth}' on {target['fen'] if target else 'the position held (no position command sent)'} differs from a freshly started engine: fresh '{diff[0]}' vs '{diff[1]}'",
                                   {"kind": "py", "check": "c12", "target": target, "depth": depth, "hash": hash_mb, "history": hist})
 
+    def bench_case(_):
+        # the built-in benchmark run inside a session: afterwards 'ucinewgame' must still give a fresh engine with the
+        # options in force (the benchmark may not leave a table of its own size behind)
+        target = positions[0]
+        a = Engine(binary)
+        ta = transcript(a, target, 8)
+        a.close()
+        b = Engine(binary)
+        try:
+            got = ask(b, "bench", lambda x: " nodes " in x and x.endswith("nps"), 900.0)
+            tb = None
+            if got is not None:
+                b.send("ucinewgame")
+                if settle(b, 120):
+                    tb = transcript(b, target, 8)
+        finally:
+            b.close()
+        with lock:
+            out.evaluations += 1
+            out.features["binary_ucinewgame_after_bench_in_session"] = out.features.get("binary_ucinewgame_after_bench_in_session", 0) + 1
+            if ta is None or tb is None:
+                out.add_inconclusive({"stage": "ucinewgame-binary", "what": "bench or a search did not finish in time"})
+            elif ta != tb:
+                diff = next((x, y) for x, y in zip(ta + [""], tb + [""]) if x != y)
+                out.add_violation("ucinewgame-binary", "c12.binary.ucinewgame-not-fresh.after-bench",
+                                  f"after 'bench' and ucinewgame, 'go depth 8' on {target['fen']} differs from a freshly started engine: fresh '{diff[0]}' vs '{diff[1]}'",
+                                  {"kind": "py", "check": "c12", "target": target, "depth": 8, "hash": 256, "history": ["bench"]})
+
     with ThreadPoolExecutor(max_workers=10) as ex:
+        fb = ex.submit(bench_case, 0)
         list(ex.map(work, range(n)))
+        fb.result()
     out.groups["c12-binary"] = n
     if thorough:
         totals = []
@@ -1479,7 +1594,7 @@ def replay(pid, rec, path):
         # Generic replay: the workloads are functions of (seed, tier), so the recorded case is re-created by
         # re-running the stage it came from with the recorded seed, and looking for the same signature.
         stage_fn = {"c05": None, "c08": c08_stage, "c12": c12_stage, "c12-bench": c12_stage, "c14-movetime": c14_stage,
-                    "c14-long": c14_stage, "c14-refused": c14_stage, "c14-late": c14_stage, "c17-ep": c17_stage, "c17": c17_stage, "c13": c13_stage,
+                    "c14-long": c14_stage, "c14-refused": c14_stage, "c14-late": c14_stage, "c14-afterlong": c14_stage, "c17-ep": c17_stage, "c17": c17_stage, "c13": c13_stage,
                     "c11": c11_stage}.get(check)
         if stage_fn is None:
             print(f"no replay procedure for process-level check {check}")
